@@ -379,3 +379,219 @@ Example ws_examples :
   /\ fst (ws_read ([129; 127; 128; 0; 0; 0; 0; 0; 0; 0] ++ [1; 2; 3])) = WPanic.
 Proof. repeat split; reflexivity. Qed.
 
+
+(* ------------------------------------------------------------------ base64 (RFC 4648) *)
+Definition is_byte (x : Z) : Prop := 0 <= x < 256.
+
+Lemma list_ind3 : forall (P : list Z -> Prop),
+  P [] -> (forall a, P [a]) -> (forall a b, P [a; b]) ->
+  (forall a b c t, P t -> P (a :: b :: c :: t)) -> forall l, P l.
+Proof.
+  intros P H0 H1 H2 H3. fix IH 1. intros [|a [|b [|c t]]]; [exact H0 | apply H1 | apply H2 | apply H3, IH].
+Qed.
+
+Lemma b64_char_val : forall v, 0 <= v < 64 ->
+  b64_val (b64_char v) = Some v /\ (b64_char v =? PAD) = false /\ In (b64_char v) b64_alphabet.
+Proof.
+  intros v Hv.
+  assert (Hall : forallb (fun v => match b64_val (b64_char v) with Some w => w =? v | None => false end
+                                   && negb (b64_char v =? PAD)) (zrange 0 64) = true)
+    by (vm_compute; reflexivity).
+  pose proof (range_forall _ 64%nat Hall v ltac:(lia)) as Hf. cbv beta in Hf.
+  apply andb_true_iff in Hf as [H1 H2]. apply negb_true_iff in H2.
+  destruct (b64_val (b64_char v)) as [w|]; [|discriminate]. apply Z.eqb_eq in H1. subst.
+  repeat split; [exact H2|]. unfold b64_char. apply nth_In.
+  change (length b64_alphabet) with 64%nat. lia.
+Qed.
+
+Lemma sextets : forall a b c, is_byte a -> is_byte b -> is_byte c ->
+  let v1 := a / 4 in let v2 := (a mod 4) * 16 + b / 16 in
+  let v3 := (b mod 16) * 4 + c / 64 in let v4 := c mod 64 in
+  0 <= v1 < 64 /\ 0 <= v2 < 64 /\ 0 <= v3 < 64 /\ 0 <= v4 < 64
+  /\ v1 * 4 + v2 / 16 = a /\ (v2 mod 16) * 16 + v3 / 4 = b /\ (v3 mod 4) * 64 + v4 = c.
+Proof.
+  unfold is_byte. intros a b c Ha Hb Hc. cbv zeta. repeat split; Z.div_mod_to_equations; lia.
+Qed.
+
+Lemma quantum3 : forall a b c last, is_byte a -> is_byte b -> is_byte c ->
+  b64_quantum (b64_char (a / 4)) (b64_char ((a mod 4) * 16 + b / 16))
+              (b64_char ((b mod 16) * 4 + c / 64)) (b64_char (c mod 64)) last = Some [a; b; c].
+Proof.
+  intros a b c last Ha Hb Hc.
+  destruct (sextets a b c Ha Hb Hc) as (R1 & R2 & R3 & R4 & E1 & E2 & E3).
+  destruct (b64_char_val _ R1) as (V1 & _ & _). destruct (b64_char_val _ R2) as (V2 & _ & _).
+  destruct (b64_char_val _ R3) as (V3 & P3 & _). destruct (b64_char_val _ R4) as (V4 & P4 & _).
+  unfold b64_quantum. rewrite V1, V2, P3. cbn [andb]. rewrite V3, P4, V4. now rewrite E1, E2, E3.
+Qed.
+
+Lemma quantum2 : forall a b, is_byte a -> is_byte b ->
+  b64_quantum (b64_char (a / 4)) (b64_char ((a mod 4) * 16 + b / 16))
+              (b64_char ((b mod 16) * 4)) PAD true = Some [a; b].
+Proof.
+  intros a b Ha Hb.
+  destruct (sextets a b 0 Ha Hb ltac:(unfold is_byte; lia)) as (R1 & R2 & R3 & _ & E1 & E2 & _).
+  change (0 / 64) with 0 in *. rewrite Z.add_0_r in *.
+  destruct (b64_char_val _ R1) as (V1 & _ & _). destruct (b64_char_val _ R2) as (V2 & _ & _).
+  destruct (b64_char_val _ R3) as (V3 & P3 & _).
+  unfold b64_quantum. rewrite V1, V2, P3. cbn [andb]. rewrite V3. change (PAD =? PAD) with true. cbv iota.
+  replace ((b mod 16 * 4) mod 4 =? 0) with true by (symmetry; apply Z.eqb_eq; Z.div_mod_to_equations; lia).
+  cbn [andb]. now rewrite E1, E2.
+Qed.
+
+Lemma quantum1 : forall a, is_byte a ->
+  b64_quantum (b64_char (a / 4)) (b64_char ((a mod 4) * 16)) PAD PAD true = Some [a].
+Proof.
+  intros a Ha.
+  destruct (sextets a 0 0 Ha ltac:(unfold is_byte; lia) ltac:(unfold is_byte; lia)) as (R1 & R2 & _ & _ & E1 & _ & _).
+  change (0 / 16) with 0 in *. rewrite Z.add_0_r in *.
+  destruct (b64_char_val _ R1) as (V1 & _ & _). destruct (b64_char_val _ R2) as (V2 & _ & _).
+  unfold b64_quantum. rewrite V1, V2. change (PAD =? PAD) with true. cbn [andb].
+  replace ((a mod 4 * 16) mod 16 =? 0) with true by (symmetry; apply Z.eqb_eq; Z.div_mod_to_equations; lia).
+  cbv iota. now rewrite E1.
+Qed.
+
+(* RFC 4648: decoding the encoding gives the bytes back *)
+Lemma b64_decode_encode : forall l, Forall is_byte l -> b64_decode (b64_encode l) = Some l.
+Proof.
+  induction l as [| a | a b | a b c t IH] using list_ind3; intros Hl.
+  - reflexivity.
+  - inversion Hl; subst. cbn [b64_encode b64_decode]. now rewrite quantum1.
+  - inversion Hl as [|? ? Ha Hl']; subst. inversion Hl'; subst.
+    cbn [b64_encode b64_decode]. now rewrite quantum2.
+  - inversion Hl as [|? ? Ha Hl1]; subst. inversion Hl1 as [|? ? Hb Hl2]; subst.
+    inversion Hl2 as [|? ? Hc Hl3]; subst.
+    cbn [b64_encode b64_decode]. rewrite quantum3 by assumption. cbn [length Nat.ltb Nat.leb].
+    now rewrite (IH Hl3).
+Qed.
+
+(* 4 characters for every 3 bytes, rounded up *)
+Lemma b64_encode_length : forall l, zlen (b64_encode l) = 4 * ((zlen l + 2) / 3).
+Proof.
+  induction l as [| a | a b | a b c t IH] using list_ind3; try reflexivity.
+  cbn [b64_encode]. unfold zlen in *. cbn [length]. rewrite !Nat2Z.inj_succ, IH.
+  replace (Z.succ (Z.succ (Z.succ (Z.of_nat (length t)))) + 2) with (Z.of_nat (length t) + 2 + 1 * 3) by lia.
+  rewrite Z.div_add by lia. lia.
+Qed.
+
+(* only alphabet characters and '=' *)
+Lemma b64_encode_alphabet : forall l, Forall is_byte l ->
+  Forall (fun c => In c b64_alphabet \/ c = PAD) (b64_encode l).
+Proof.
+  induction l as [| a | a b | a b c t IH] using list_ind3; intros Hl.
+  - constructor.
+  - inversion Hl as [|? ? Ha _]; subst.
+    destruct (sextets a 0 0 Ha ltac:(unfold is_byte; lia) ltac:(unfold is_byte; lia)) as (R1 & R2 & _).
+    change (0 / 16) with 0 in *. rewrite Z.add_0_r in *. cbn [b64_encode].
+    constructor; [left; now apply b64_char_val|]. constructor; [left; now apply b64_char_val|]. constructor; [now right|]. constructor; [now right|]. constructor.
+  - inversion Hl as [|? ? Ha Hl']; subst. inversion Hl' as [|? ? Hb _]; subst.
+    destruct (sextets a b 0 Ha Hb ltac:(unfold is_byte; lia)) as (R1 & R2 & R3 & _).
+    change (0 / 64) with 0 in *. rewrite Z.add_0_r in *. cbn [b64_encode].
+    constructor; [left; now apply b64_char_val|]. constructor; [left; now apply b64_char_val|]. constructor; [left; now apply b64_char_val|]. constructor; [now right|]. constructor.
+  - inversion Hl as [|? ? Ha Hl1]; subst. inversion Hl1 as [|? ? Hb Hl2]; subst.
+    inversion Hl2 as [|? ? Hc Hl3]; subst.
+    destruct (sextets a b c Ha Hb Hc) as (R1 & R2 & R3 & R4 & _). cbn [b64_encode].
+    constructor; [left; now apply b64_char_val|]. constructor; [left; now apply b64_char_val|]. constructor; [left; now apply b64_char_val|]. constructor; [left; now apply b64_char_val|]. now apply IH.
+Qed.
+
+(* RFC 4648 section 10 test vectors *)
+Example b64_rfc4648_vectors :
+  b64_encode (s2b "") = s2b "" /\ b64_encode (s2b "f") = s2b "Zg=="
+  /\ b64_encode (s2b "fo") = s2b "Zm8=" /\ b64_encode (s2b "foo") = s2b "Zm9v"
+  /\ b64_encode (s2b "foob") = s2b "Zm9vYg==" /\ b64_encode (s2b "fooba") = s2b "Zm9vYmE="
+  /\ b64_encode (s2b "foobar") = s2b "Zm9vYmFy"
+  /\ b64_decode (s2b "Zm9vYmE=") = Some (s2b "fooba") /\ b64_decode (s2b "Zm9vYmE") = None
+  /\ b64_decode (s2b "Zm9vYmF=") = None.
+Proof. repeat split; reflexivity. Qed.
+
+(* ------------------------------------------------------------------ accept key *)
+Definition GUID_RFC6455 : list Z := s2b "258EAFA5-E914-47DA-95CA-C5AB0DC85B11".
+
+Section AcceptKey.
+  Variable H : list Z -> list Z.
+  (* all that is assumed of SHA-1: a digest is 20 bytes *)
+  Hypothesis H_digest : forall x, length (H x) = 20%nat /\ Forall is_byte (H x).
+
+  (* RFC 6455 4.2.2 item 5.4: Sec-WebSocket-Accept = base64(SHA-1(key ++ GUID)): the RFC 4648
+     decoder recovers exactly the digest of key ++ "258EAFA5-E914-47DA-95CA-C5AB0DC85B11"; the
+     value is 28 characters of the base64 alphabet, the last one '=' *)
+  Lemma accept_key_rfc6455 : forall key,
+    b64_decode (compute_accept_key H key) = Some (H (key ++ GUID_RFC6455))
+    /\ zlen (compute_accept_key H key) = 28
+    /\ Forall (fun c => In c b64_alphabet \/ c = PAD) (compute_accept_key H key)
+    /\ nth 27 (compute_accept_key H key) 0 = PAD.
+  Proof.
+    intros key. unfold compute_accept_key. change KeyGUID with GUID_RFC6455.
+    destruct (H_digest (key ++ GUID_RFC6455)) as [Hlen Hb].
+    split; [now apply b64_decode_encode|]. split.
+    - rewrite b64_encode_length. unfold zlen. rewrite Hlen. reflexivity.
+    - split; [now apply b64_encode_alphabet|].
+      destruct (H (key ++ GUID_RFC6455)) as [|x0 [|x1 [|x2 [|x3 [|x4 [|x5 [|x6 [|x7 [|x8 [|x9
+        [|x10 [|x11 [|x12 [|x13 [|x14 [|x15 [|x16 [|x17 [|x18 [|x19 [|x20 t]]]]]]]]]]]]]]]]]]]]];
+        try discriminate. reflexivity.
+  Qed.
+End AcceptKey.
+
+(* RFC 6455 section 1.3: key "dGhlIHNhbXBsZSBub25jZQ==" gives "s3pPLMBiTxaQ9kYGzzhZRbK+xOo=" --
+   with H answering the SHA-1 value of the RFC's example (b3 7a 4f 2c c0 62 4f 16 90 f6 46 06 cf
+   38 59 45 b2 be c4 ea) *)
+Example accept_key_rfc_example :
+  compute_accept_key
+    (fun _ => [179; 122; 79; 44; 192; 98; 79; 22; 144; 246; 70; 6; 207; 56; 89; 69; 178; 190; 196; 234])
+    (s2b "dGhlIHNhbXBsZSBub25jZQ==") = s2b "s3pPLMBiTxaQ9kYGzzhZRbK+xOo=".
+Proof. reflexivity. Qed.
+
+(* ------------------------------------------------------------------ Upgrade *)
+Section Upgrade.
+  Variable H : list Z -> list Z.
+
+  (* the five checks of upgrade.go, in the words of the code *)
+  Definition upgrade_conditions (r : request) : bool :=
+    beq (method_raw r) (s2b "GET")
+    && beq (get_header (s2b "Sec-WebSocket-Version") (headers r)) (s2b "13")
+    && token_list_contains (get_header (s2b "Connection") (headers r)) (s2b "upgrade")
+    && beq (get_header (s2b "Upgrade") (headers r)) (s2b "websocket")
+    && negb (isnil (get_header (s2b "Sec-WebSocket-Key") (headers r))).
+
+  (* the 101 response is written iff all five hold; then it carries the accept key of the
+     request's Sec-WebSocket-Key; otherwise NOTHING is written and an error is returned.  The
+     status is never changed on a connection whose status is 200 (w.Error is a no-op there). *)
+  Lemma upgrade_checks : forall r st,
+    (upgrade_conditions r = true ->
+       upgrade H r st = (Some (upgrade_response H (get_header (s2b "Sec-WebSocket-Key") (headers r))), st))
+    /\ (upgrade_conditions r = false -> fst (upgrade H r st) = None)
+    /\ (st <> 0 -> snd (upgrade H r st) = st).
+  Proof.
+    intros r st. unfold upgrade_conditions, upgrade.
+    destruct (beq (method_raw r) (s2b "GET")); cbn [negb andb];
+      [| repeat split; try discriminate; intros; cbn [snd]; now apply set_status_nonzero].
+    destruct (beq (get_header (s2b "Sec-WebSocket-Version") (headers r)) (s2b "13")); cbn [negb andb];
+      [| repeat split; try discriminate; intros; cbn [snd]; now apply set_status_nonzero].
+    destruct (token_list_contains (get_header (s2b "Connection") (headers r)) (s2b "upgrade")); cbn [negb andb];
+      [| repeat split; try discriminate; intros; cbn [snd]; now apply set_status_nonzero].
+    destruct (beq (get_header (s2b "Upgrade") (headers r)) (s2b "websocket")); cbn [negb andb];
+      [| repeat split; try discriminate; intros; cbn [snd]; now apply set_status_nonzero].
+    destruct (isnil (get_header (s2b "Sec-WebSocket-Key") (headers r))); cbn [negb andb];
+      repeat split; try discriminate; intros; cbn [snd]; try reflexivity; now apply set_status_nonzero.
+  Qed.
+End Upgrade.
+
+(* tokenListContainsValue: comma-separated, white space trimmed, case-insensitive *)
+Example token_list_examples :
+  token_list_contains (s2b "Upgrade") (s2b "upgrade") = true
+  /\ token_list_contains (s2b "keep-alive, Upgrade") (s2b "upgrade") = true
+  /\ token_list_contains (s2b "UPGRADE ,x") (s2b "upgrade") = true
+  /\ token_list_contains (s2b "keep-alive") (s2b "upgrade") = false
+  /\ token_list_contains (s2b "upgradex") (s2b "upgrade") = false
+  /\ token_list_contains (s2b "up,grade") (s2b "upgrade") = false
+  /\ token_list_contains [] (s2b "upgrade") = false.
+Proof. repeat split; reflexivity. Qed.
+
+(* the request the bundled client sends for an upgrade passes the checks; a POST does not *)
+Example upgrade_example :
+  let hs := [(s2b "Upgrade", s2b "websocket"); (s2b "Connection", s2b "Upgrade");
+             (s2b "Sec-WebSocket-Key", s2b "dGhlIHNhbXBsZSBub25jZQ==");
+             (s2b "Sec-WebSocket-Protcol", s2b "chat, superchat"); (s2b "Sec-WebSocket-Version", s2b "13")] in
+  upgrade_conditions (mkReq (s2b "GET") 1 (s2b "/ws") HTTP11 3 hs []) = true
+  /\ upgrade_conditions (mkReq (s2b "POST") 0 (s2b "/ws") HTTP11 3 hs []) = false
+  /\ upgrade_conditions (mkReq (s2b "GET") 1 (s2b "/ws") HTTP11 3 (tl hs) []) = false.
+Proof. repeat split; reflexivity. Qed.
